@@ -50,6 +50,9 @@ func ruleFirstUse(res *common.Result, prop string) {
 		gids = []int{0}
 	}
 	arches := []string{"b64", "b32", "x86_64", "i386", "aarch64", "arm", "ppc64le", "ppc", "s390x", "s390"}
+	if strconv.IntSize == 32 {
+		arches[0] = "b32" // this program is a 32-bit one (the second pass of C20): b64 names nothing here
+	}
 	calls := []string{"open", "read", "write", "close", "execve", "exit", "chmod", "chown", "kill", "mount"}
 	var lines []string
 	for i := 0; i < 40; i++ {
